@@ -6,14 +6,23 @@
    WRITTEN (what Tripoli-4 prints).  A listing is a sequence of editions
         [batch, time, resps]
    a response  [fn, name, zones]          (response function, response name)
-   a zone      [zid, secs]                (scoring zone id, one section per time
+   a zone      [zid, kind, secs]          (scoring zone id, one section per time
                                            step, a single section when the score
-                                           has no time grid)
-   a section   [timed, tmin, tmax, rows, integ]
-   a row       [a, b, vn, sn]             "a - b   score   sigma%": group bounds AS
-                                           PRINTED (a > b when the groups are
-                                           printed by decreasing energy)
-   integ       [kind, vn, sn]             kind = "yes" | "no" | "notconv"
+                                           has no time grid); kind = "vol" (a
+                                           volume: spectrum layout) | "mesh"
+                                           ("Results on a mesh", zid = 0)
+   a section   [timed, tmin, tmax, rows, emesh, integ]
+   a row       [a, b, cells]              "a - b   score   sigma%" (spectrum) or
+                                           "Energy range (in MeV): a - b" followed
+                                           by one line per cell (mesh): group
+                                           bounds AS PRINTED (a > b when the groups
+                                           are printed by decreasing energy)
+   a cell      [u, v, w, vn, sn]          "(u,v,w)  tally  sigma%"; a spectrum row
+                                           is the single cell (0,0,0)
+   emesh       [kind, cells]              "ENERGY INTEGRATED RESULTS :" one line per
+                                           cell (mesh only); kind = "yes" | "no"
+   integ       [kind, vn, sn]             kind = "yes" | "no" | "notconv": the result
+                                           integrated over energy (and space)
    Bounds are indices in an increasing table of energies / times; vn is the score
    numerator (score = vn/2) and sn the sigma% numerator (sigma% = sn/2): the
    harness turns them into exactly representable decimal numbers.
@@ -22,23 +31,33 @@
    item per (response, zone) in print order, with
         ebins   the group bounds in increasing order
         tbins   the time bounds in increasing order (<<>> without time grid)
-        val[ie][it], sig[ie][it]   score / sigma% of the group whose bounds are
-                 ebins[ie], ebins[ie+1] in the time step tbins[it], tbins[it+1]
-        integ[it]                  the energy-integrated result of that time step
+        shape   <<nu, nv, nw>> number of cells per direction (<<1, 1, 1>> for a volume)
+        val[ie][it][c], sig[ie][it][c]   score / sigma% of the group whose bounds
+                 are ebins[ie], ebins[ie+1] in the time step tbins[it], tbins[it+1]
+                 in the cell (u,v,w) of rank c = (u * nv + v) * nw + w + 1
+        emesh[it]                  the per-cell energy-integrated results of that step
+        integ[it]                  the integrated result of that time step; a result
+                 printed "NOT YET CONVERGED" reads back as kind "notconv" and
+                 takes nothing away from val / sig / emesh
    The error of a cell is val * sig / 100 (checked by the harness from val, sig).
 
    The module is function-like (see Slice.tla): Init enumerates document
    STRUCTURES (editions x responses x zones x groups x time steps x print orders
-   x sign classes x integrated kinds), Eval builds the printed listing (PrintDoc) and
+   x sign classes x integrated kinds x volume / mesh grids), Eval builds the printed listing (PrintDoc) and
    the expected reading of the requested edition, once by construction
    (Expected) and once from the printed text alone (ReadOf); they must agree.
    Cell values are an injective function of (edition, response, zone, group,
-   time step), so any swap, shift or wrong edition is visible.
+   time step, cell), so any swap, shift or wrong edition is visible.
 *)
 EXTENDS Integers, Sequences, FiniteSets, TLC
 
 CONSTANTS MaxEditions, MaxResponses, MaxZones, MaxE, MaxT,
-          Thin        \* TRUE: the second response only varies its grids (fewer documents)
+          Thin,       \* TRUE: the second response only varies its grids (fewer documents)
+          Kinds,      \* score kinds enumerated, subset of {"vol", "mesh"}
+          ShapeIds    \* mesh grids enumerated, indices in ShapeTable
+
+(* <<nu, nv, nw>> *)
+ShapeTable == << <<1, 1, 1>>, <<1, 1, 2>>, <<1, 2, 1>>, <<2, 1, 1>>, <<1, 2, 2>>, <<2, 1, 2>>, <<2, 2, 1>>, <<2, 2, 2>> >>
 
 Orders == {"inc", "dec"}
 Signs == {"pos", "neg", "mixed"}
@@ -46,35 +65,53 @@ IntegKinds == {"yes", "no", "notconv"}
 
 (* structure of one response; every edition prints the same structure *)
 RespSpec == [ne : 1 .. MaxE, nt : 0 .. MaxT, eorder : Orders, torder : Orders,
-             integ : IntegKinds, sign : Signs, nz : 1 .. MaxZones]
+             integ : IntegKinds, sign : Signs, nz : 1 .. MaxZones,
+             kind : Kinds, shape : ShapeIds \cup {1}, emesh : BOOLEAN]
 
 (* print orders only matter with at least two groups / steps *)
+(* a mesh score is a response of its own (one "zone": the mesh) *)
 Canonical(r) == /\ (r.ne = 1 => r.eorder = "inc")
                 /\ (r.nt <= 1 => r.torder = "inc")
+                /\ (r.kind = "vol" => r.shape = 1 /\ ~r.emesh)
+                /\ (r.kind = "mesh" => r.shape \in ShapeIds /\ r.nz = 1)
 ThinSpec(r) == r.integ = "yes" /\ r.sign = "pos" /\ r.nz = 1
 
 NT(r) == IF r.nt = 0 THEN 1 ELSE r.nt
 BatchOf(ed) == 10 * ed
 TimeOf(ed) == 3 * ed + 1
-ZoneId(z) == 3 + z                    \* the same volumes are scored by every response
+(* the same volumes are scored by every response; a mesh has no zone id *)
+ZoneId(spec, z) == IF spec.kind = "mesh" THEN 0 ELSE 3 + z
 
-(* injective cell code; ie = 0 is the energy-integrated result *)
-Code(ed, r, z, ie, it) == ((((ed * 4 + r) * 4 + z) * 10 + ie) * 6 + it)
+ShapeOf(spec) == ShapeTable[spec.shape]
+NCells(sh) == sh[1] * sh[2] * sh[3]
+(* label <<u, v, w>> of the cell of rank k (1-based, w running fastest: the order Tripoli-4 prints them in) *)
+CellAt(sh, k) == <<(k - 1) \div (sh[2] * sh[3]), ((k - 1) \div sh[3]) % sh[2], (k - 1) % sh[3]>>
 
-Zero(spec, ie, it) == spec.sign = "mixed" /\ (ie + it) % 3 = 0
-ValNum(spec, ed, r, z, ie, it) ==
-   LET c == Code(ed, r, z, ie, it) IN
-   IF Zero(spec, ie, it) THEN 0
-   ELSE IF spec.sign = "neg" \/ (spec.sign = "mixed" /\ (ie + it) % 3 = 1) THEN -(2 * c + 1)
-   ELSE 2 * c + 1
-SigNum(spec, ed, r, z, ie, it) ==
-   IF Zero(spec, ie, it) THEN 0 ELSE 1 + (Code(ed, r, z, ie, it) % 11)
+(* injective cell code; ie = 0 is the result integrated over energy (and space), ie = 9 the per-cell
+   energy-integrated mesh; c = rank of the cell - 1 *)
+Code(ed, r, z, ie, it, c) == (((((ed * 4 + r) * 4 + z) * 10 + ie) * 6 + it) * 8 + c)
+
+Zero(spec, ie, it, c) == spec.sign = "mixed" /\ (ie + it + c) % 3 = 0
+ValNum(spec, ed, r, z, ie, it, c) ==
+   LET n == Code(ed, r, z, ie, it, c) IN
+   IF Zero(spec, ie, it, c) THEN 0
+   ELSE IF spec.sign = "neg" \/ (spec.sign = "mixed" /\ (ie + it + c) % 3 = 1) THEN -(2 * n + 1)
+   ELSE 2 * n + 1
+SigNum(spec, ed, r, z, ie, it, c) ==
+   IF Zero(spec, ie, it, c) THEN 0 ELSE 1 + (Code(ed, r, z, ie, it, c) % 11)
 
 -----------------------------------------------------------------------------
 (* WRITTEN *)
 
 Rev(s) == [i \in 1 .. Len(s) |-> s[Len(s) + 1 - i]]
 Ordered(n, order) == IF order = "inc" THEN [i \in 1 .. n |-> i] ELSE [i \in 1 .. n |-> n + 1 - i]
+
+PrintCells(spec, ed, r, z, ie, it) ==
+   LET sh == ShapeOf(spec) IN
+   [k \in 1 .. NCells(sh) |->
+      [u |-> CellAt(sh, k)[1], v |-> CellAt(sh, k)[2], w |-> CellAt(sh, k)[3],
+       vn |-> ValNum(spec, ed, r, z, ie, it, k - 1),
+       sn |-> SigNum(spec, ed, r, z, ie, it, k - 1)]]
 
 PrintSection(spec, ed, r, z, it) ==
    [timed |-> spec.nt > 0,
@@ -84,14 +121,15 @@ PrintSection(spec, ed, r, z, it) ==
                  LET ie == Ordered(spec.ne, spec.eorder)[k] IN
                  [a  |-> IF spec.eorder = "inc" THEN ie - 1 ELSE ie,
                   b  |-> IF spec.eorder = "inc" THEN ie ELSE ie - 1,
-                  vn |-> ValNum(spec, ed, r, z, ie, it),
-                  sn |-> SigNum(spec, ed, r, z, ie, it)]],
+                  cells |-> PrintCells(spec, ed, r, z, ie, it)]],
+    emesh |-> [kind |-> IF spec.emesh THEN "yes" ELSE "no",
+               cells |-> IF spec.emesh THEN PrintCells(spec, ed, r, z, 9, it) ELSE <<>>],
     integ |-> [kind |-> spec.integ,
-               vn |-> IF spec.integ = "yes" THEN ValNum(spec, ed, r, z, 0, it) ELSE 0,
-               sn |-> IF spec.integ = "yes" THEN SigNum(spec, ed, r, z, 0, it) ELSE 0]]
+               vn |-> IF spec.integ = "yes" THEN ValNum(spec, ed, r, z, 0, it, 0) ELSE 0,
+               sn |-> IF spec.integ = "yes" THEN SigNum(spec, ed, r, z, 0, it, 0) ELSE 0]]
 
 PrintZone(spec, ed, r, z) ==
-   [zid |-> ZoneId(z),
+   [zid |-> ZoneId(spec, z), kind |-> spec.kind,
     secs |-> [k \in 1 .. NT(spec) |-> PrintSection(spec, ed, r, z, Ordered(NT(spec), spec.torder)[k])]]
 
 PrintResp(spec, ed, r) ==
@@ -108,6 +146,14 @@ PrintDoc(doc) == [ed \in 1 .. doc.ned |->
 SortSet(S) == [i \in 1 .. Cardinality(S) |-> CHOOSE x \in S : Cardinality({y \in S : y < x}) = i - 1]
 Min2(a, b) == IF a <= b THEN a ELSE b
 Max2(a, b) == IF a >= b THEN a ELSE b
+MaxOf(S) == CHOOSE x \in S : \A y \in S : y <= x
+
+(* grid of a block of cell lines: one more than the largest printed index in each direction *)
+GridOf(cells) == <<1 + MaxOf({cells[j].u : j \in DOMAIN cells}),
+                   1 + MaxOf({cells[j].v : j \in DOMAIN cells}),
+                   1 + MaxOf({cells[j].w : j \in DOMAIN cells})>>
+(* the line of a block printed for the cell of rank k of the grid sh *)
+LineOf(cells, sh, k) == CHOOSE j \in DOMAIN cells : <<cells[j].u, cells[j].v, cells[j].w>> = CellAt(sh, k)
 
 ReadZone(fn, name, zone) ==
    LET secs == zone.secs
@@ -116,14 +162,25 @@ ReadZone(fn, name, zone) ==
        tbins == IF timed THEN SortSet(UNION {{secs[k].tmin, secs[k].tmax} : k \in DOMAIN secs}) ELSE <<>>
        ne == Len(ebins) - 1
        nts == IF timed THEN Len(tbins) - 1 ELSE 1
+       sh == GridOf(secs[1].rows[1].cells)
        SecOf(it) == IF timed THEN CHOOSE k \in DOMAIN secs : secs[k].tmin = tbins[it] /\ secs[k].tmax = tbins[it + 1]
                     ELSE 1
        RowOf(it, ie) == LET rows == secs[SecOf(it)].rows IN
                         CHOOSE k \in DOMAIN rows : Min2(rows[k].a, rows[k].b) = ebins[ie]
                                                    /\ Max2(rows[k].a, rows[k].b) = ebins[ie + 1]
-   IN [fn |-> fn, name |-> name, zid |-> zone.zid, ebins |-> ebins, tbins |-> tbins,
-       val |-> [ie \in 1 .. ne |-> [it \in 1 .. nts |-> secs[SecOf(it)].rows[RowOf(it, ie)].vn]],
-       sig |-> [ie \in 1 .. ne |-> [it \in 1 .. nts |-> secs[SecOf(it)].rows[RowOf(it, ie)].sn]],
+       CellsOf(it, ie) == secs[SecOf(it)].rows[RowOf(it, ie)].cells
+   IN [fn |-> fn, name |-> name, zid |-> zone.zid, shape |-> sh, ebins |-> ebins, tbins |-> tbins,
+       val |-> [ie \in 1 .. ne |-> [it \in 1 .. nts |-> [k \in 1 .. NCells(sh) |->
+                   CellsOf(it, ie)[LineOf(CellsOf(it, ie), sh, k)].vn]]],
+       sig |-> [ie \in 1 .. ne |-> [it \in 1 .. nts |-> [k \in 1 .. NCells(sh) |->
+                   CellsOf(it, ie)[LineOf(CellsOf(it, ie), sh, k)].sn]]],
+       emesh |-> [it \in 1 .. nts |->
+                    LET m == secs[SecOf(it)].emesh IN
+                    IF m.kind = "yes"
+                    THEN [kind |-> "yes",
+                          val |-> [k \in 1 .. NCells(sh) |-> m.cells[LineOf(m.cells, sh, k)].vn],
+                          sig |-> [k \in 1 .. NCells(sh) |-> m.cells[LineOf(m.cells, sh, k)].sn]]
+                    ELSE [kind |-> "no", val |-> <<>>, sig |-> <<>>]],
        integ |-> [it \in 1 .. nts |-> secs[SecOf(it)].integ]]
 
 Flatten(ss) == LET RECURSIVE F(_) F(i) == IF i > Len(ss) THEN <<>> ELSE ss[i] \o F(i + 1) IN F(1)
@@ -141,15 +198,22 @@ ReadOf(listing, batch) ==
 -----------------------------------------------------------------------------
 (* the same reading, by construction from the structure *)
 ExpectedZone(spec, ed, r, z) ==
-   [fn |-> 1 + (r % 2), name |-> r, zid |-> ZoneId(z),
+   LET nc == NCells(ShapeOf(spec)) IN
+   [fn |-> 1 + (r % 2), name |-> r, zid |-> ZoneId(spec, z), shape |-> ShapeOf(spec),
     ebins |-> [i \in 1 .. spec.ne + 1 |-> i - 1],
     tbins |-> IF spec.nt > 0 THEN [i \in 1 .. spec.nt + 1 |-> i - 1] ELSE <<>>,
-    val |-> [ie \in 1 .. spec.ne |-> [it \in 1 .. NT(spec) |-> ValNum(spec, ed, r, z, ie, it)]],
-    sig |-> [ie \in 1 .. spec.ne |-> [it \in 1 .. NT(spec) |-> SigNum(spec, ed, r, z, ie, it)]],
+    val |-> [ie \in 1 .. spec.ne |-> [it \in 1 .. NT(spec) |-> [k \in 1 .. nc |-> ValNum(spec, ed, r, z, ie, it, k - 1)]]],
+    sig |-> [ie \in 1 .. spec.ne |-> [it \in 1 .. NT(spec) |-> [k \in 1 .. nc |-> SigNum(spec, ed, r, z, ie, it, k - 1)]]],
+    emesh |-> [it \in 1 .. NT(spec) |->
+                 IF spec.emesh
+                 THEN [kind |-> "yes",
+                       val |-> [k \in 1 .. nc |-> ValNum(spec, ed, r, z, 9, it, k - 1)],
+                       sig |-> [k \in 1 .. nc |-> SigNum(spec, ed, r, z, 9, it, k - 1)]]
+                 ELSE [kind |-> "no", val |-> <<>>, sig |-> <<>>]],
     integ |-> [it \in 1 .. NT(spec) |->
                  [kind |-> spec.integ,
-                  vn |-> IF spec.integ = "yes" THEN ValNum(spec, ed, r, z, 0, it) ELSE 0,
-                  sn |-> IF spec.integ = "yes" THEN SigNum(spec, ed, r, z, 0, it) ELSE 0]]]
+                  vn |-> IF spec.integ = "yes" THEN ValNum(spec, ed, r, z, 0, it, 0) ELSE 0,
+                  sn |-> IF spec.integ = "yes" THEN SigNum(spec, ed, r, z, 0, it, 0) ELSE 0]]]
 
 Expected(doc, ed) ==
    [time |-> TimeOf(ed),
@@ -181,19 +245,30 @@ Evaluated == pc = "done"
 (* reading the printed text gives the reading defined by construction *)
 ReadIsExpected == Evaluated => ReadOf(printed, BatchOf(req)) = expected
 
-(* every printed row is read exactly once, at the bin whose bounds are the printed ones *)
+(* every printed line (row x cell) is read exactly once, at the bin whose bounds are the printed ones and in the
+   cell whose indices are the printed ones; so is every line of an energy-integrated mesh *)
 EveryRowRead ==
    Evaluated =>
       \A r \in DOMAIN printed[req].resps : \A z \in DOMAIN printed[req].resps[r].zones :
          LET zone == printed[req].resps[r].zones[z]
-             item == ReadZone(printed[req].resps[r].fn, printed[req].resps[r].name, zone) IN
-         \A s \in DOMAIN zone.secs : \A k \in DOMAIN zone.secs[s].rows :
-            LET row == zone.secs[s].rows[k]
-                ie == CHOOSE i \in 1 .. Len(item.ebins) - 1 : item.ebins[i] = Min2(row.a, row.b)
-                it == IF zone.secs[s].timed THEN CHOOSE i \in 1 .. Len(item.tbins) - 1 : item.tbins[i] = zone.secs[s].tmin
+             item == ReadZone(printed[req].resps[r].fn, printed[req].resps[r].name, zone)
+             RankOf(c) == (c.u * item.shape[2] + c.v) * item.shape[3] + c.w + 1 IN
+         \A s \in DOMAIN zone.secs :
+            LET it == IF zone.secs[s].timed THEN CHOOSE i \in 1 .. Len(item.tbins) - 1 : item.tbins[i] = zone.secs[s].tmin
                       ELSE 1 IN
-            /\ item.ebins[ie + 1] = Max2(row.a, row.b)
-            /\ item.val[ie][it] = row.vn /\ item.sig[ie][it] = row.sn
+            /\ \A k \in DOMAIN zone.secs[s].rows :
+                  LET row == zone.secs[s].rows[k]
+                      ie == CHOOSE i \in 1 .. Len(item.ebins) - 1 : item.ebins[i] = Min2(row.a, row.b) IN
+                  /\ item.ebins[ie + 1] = Max2(row.a, row.b)
+                  /\ Len(row.cells) = NCells(item.shape)
+                  /\ \A j \in DOMAIN row.cells :
+                        /\ item.val[ie][it][RankOf(row.cells[j])] = row.cells[j].vn
+                        /\ item.sig[ie][it][RankOf(row.cells[j])] = row.cells[j].sn
+            /\ \A j \in DOMAIN zone.secs[s].emesh.cells :
+                  LET c == zone.secs[s].emesh.cells[j] IN
+                  /\ item.emesh[it].val[RankOf(c)] = c.vn
+                  /\ item.emesh[it].sig[RankOf(c)] = c.sn
+            /\ item.integ[it] = zone.secs[s].integ
 
 BinsIncreasing ==
    Evaluated => \A i \in DOMAIN expected.items :
@@ -201,19 +276,29 @@ BinsIncreasing ==
                    /\ \A k \in 1 .. Len(e) - 1 : e[k] < e[k + 1]
                    /\ \A k \in 1 .. Len(t) - 1 : t[k] < t[k + 1]
 
-(* non-zero scores of a listing are pairwise distinct: a swap cannot go unnoticed *)
+(* non-zero scores of a listing (cells of the rows, of the energy-integrated meshes, integrated results) are pairwise
+   distinct: a swap cannot go unnoticed *)
+SectionNumbers(sec) ==
+   UNION {{<<k, j, sec.rows[k].cells[j].vn>> : j \in DOMAIN sec.rows[k].cells} : k \in DOMAIN sec.rows}
+   \cup {<<-1, j, sec.emesh.cells[j].vn>> : j \in DOMAIN sec.emesh.cells}
+   \cup {<<-2, 0, sec.integ.vn>>}
 AllNumbers(listing) ==
-   UNION {UNION {UNION {UNION {{<<ed, r, z, s, k, listing[ed].resps[r].zones[z].secs[s].rows[k].vn>> :
-                                   k \in DOMAIN listing[ed].resps[r].zones[z].secs[s].rows} :
+   UNION {UNION {UNION {UNION {{<<ed, r, z, s, x[1], x[2], x[3]>> :
+                                   x \in SectionNumbers(listing[ed].resps[r].zones[z].secs[s])} :
                                s \in DOMAIN listing[ed].resps[r].zones[z].secs} :
                         z \in DOMAIN listing[ed].resps[r].zones} :
                  r \in DOMAIN listing[ed].resps} :
           ed \in DOMAIN listing}
 Injective ==
-   Evaluated => \A x, y \in AllNumbers(printed) : (x[6] = y[6] /\ x[6] # 0) => x = y
+   Evaluated => \A x, y \in AllNumbers(printed) : (x[7] = y[7] /\ x[7] # 0) => x = y
 
 (* witnesses *)
 W_DecreasingBoth == ~(Evaluated /\ \E r \in DOMAIN doc.resps : doc.resps[r].eorder = "dec" /\ doc.resps[r].torder = "dec")
 W_SecondEdition == ~(Evaluated /\ req = 2)
 W_NotConverged == ~(Evaluated /\ \E r \in DOMAIN doc.resps : doc.resps[r].integ = "notconv" /\ doc.resps[r].sign = "mixed")
+W_MeshTimedNotConverged ==
+   ~(Evaluated /\ \E r \in DOMAIN doc.resps :
+        LET s == doc.resps[r] IN
+        /\ s.kind = "mesh" /\ NCells(ShapeOf(s)) > 1 /\ s.emesh /\ s.integ = "notconv"
+        /\ s.eorder = "dec" /\ s.torder = "dec" /\ s.sign = "mixed")
 =============================================================================
